@@ -469,6 +469,15 @@ def _paths(cfg, arity, limit, seed, max_len=12, res=None):
     init = graphmod.split_init(res.lines)
     if not g.edges or not init:
         raise MachineryError(f"{cfg}: empty state graph")
+    # TLC chooses its fingerprint polynomial at random for every run: re-key the graph by the content of the
+    # states and order the edges by content, so that the cover depends on (spec, cfg, seed) only
+    name = {k: json.dumps(v, sort_keys=True) for k, v in g.states.items()}
+    if len(set(name.values())) != len(name):
+        raise MachineryError(f"{cfg}: two exported states have the same content")
+    g.states = {name[k]: v for k, v in g.states.items()}
+    g.edges = sorted(((name[s], name[d], lab) for s, d, lab in g.edges),
+                     key=lambda e: (e[0], json.dumps(e[2], sort_keys=True)))
+    init = sorted(name[k] for k in init)
     rng = random.Random(seed)
     paths, ncov, unreachable = tour_cover(g.edges, init, max_len=max_len, rng=rng)
     if unreachable:
